@@ -23,6 +23,19 @@ def run_versions(mode, versions, ctx, timeout=3000):
     try:
         with ThreadPoolExecutor(max_workers=min(len(versions), os.cpu_count() or 4)) as ex:
             res = list(ex.map(one, versions))
+        # confirm before reporting: a version whose worker reported violations is run once more, alone; only violations
+        # whose signature shows up again are kept (the others are listed as unconfirmed in the evidence)
+        out = []
+        for v, r, err in res:
+            if r is not None and any(not x.get("confirmed") for x in r.get("violations", [])):
+                v2, r2, err2 = one(v)
+                if r2 is not None:
+                    again = {json.dumps(x["signature"], sort_keys=True) for x in r2.get("violations", [])}
+                    kept = [x for x in r["violations"] if x.get("confirmed") or json.dumps(x["signature"], sort_keys=True) in again]
+                    r["unconfirmed"] = [x for x in r["violations"] if x not in kept]
+                    r["violations"] = kept
+            out.append((v, r, err))
+        res = out
     finally:
         shutil.rmtree(tmp, ignore_errors=True)
     return res
